@@ -77,6 +77,19 @@ def check(repo: Repo, rep: Report) -> None:
             rep.ob("R1-stale-timer", g, f"{name} timer emission under {gt}", ok,
                    f"{name}: the delayed emission is not dominated by `has_value and id == {idv}`: an element is emitted although a "
                    f"newer one arrived (or was already flushed)")
+        # a superseded timer changes nothing: inside the delayed handlers the presence flag is written only under the same
+        # `id == captured id` decision (cancellation of a timer is best effort; a stale action that still runs must not eat the
+        # newer element's pending state)
+        for g in outer["on_next"].children:
+            if not g.is_func:
+                continue
+            for w in sites(g):
+                if isinstance(w.node, ast.Assign) and cell_name(w.node.targets[0]) == flag:
+                    okw = any(p_ and isinstance(e_, ast.Compare) and len(e_.ops) == 1 and isinstance(e_.ops[0], ast.Eq)
+                              and {cell_name(e_.left), cell_name(e_.comparators[0])} == {idc, idv} for e_, p_ in w.ctx.guards)
+                    rep.ob("R1-stale-timer", g, f"{name}.{g.name}: `{short(w.node)}` only when this timer is the current one", okw,
+                           f"{name}: the delayed handler clears the presence flag even when it was superseded (`id != {idv}`): cancellation is best "
+                           f"effort, and a stale timer that still runs makes the newer element's own timer find nothing pending — the element is lost")
         rep.require(n >= 1, f"timer emissions in {name}")
         oc = outer["on_completed"]
         em = [s for g, s, k in TC.downstream_sites(root, ("on_next",)) if g is oc]
